@@ -20,7 +20,11 @@ CHECKS = {
             "directions; payload lengths across varint/window boundaries up to several flow-control windows (1 KiB stream window); all write "
             "compositions for short payloads and boundary families beyond; read / read_exact / AsyncRead with six buffer sizes; 1-3 (8) "
             "concurrent streams in three write orders; payloads that begin with preamble look-alikes; select! start deviations on the accept "
-            "path. Oracle: received bytes == sent bytes then end-of-stream, stream ids agree, no stream delivered twice.",
+            "path. Oracle: received bytes == sent bytes then end-of-stream, stream ids agree, no stream delivered twice. Part 'credit': "
+            "1-3 streams of each kind (uni / bidi / bidi with echo) opened by either role while exactly 0..5 bytes of connection send "
+            "budget remain (quinn send_window with acknowledgements withheld by the simulated network; each scenario is calibrated by "
+            "a separate run in which exactly that many one-byte writes are accepted and the next one pends), payloads of 0..9000 bytes "
+            "whose first byte looks like the session id or a preamble byte: the 3-byte preamble is segmented by flow control itself.",
             SIM_NOTE,
             "exhaustive enumeration of a bounded scenario grid executed on the real stack under a deterministic simulated environment"),
     "C02": ("simx", "exploration", "DESIGN.md §6-C02",
@@ -69,14 +73,18 @@ CHECKS = {
             "with all acknowledgements withheld and later released} x phase {before any byte, after k bytes written and read, written and "
             "unread, after finish} x 10 codes across every varint length up to 2^62-1. Oracle: the reader sees a prefix of the written bytes "
             "then Reset(c); after stop(c) stopped(), write, write_all and finish all report Stopped(c); the raw peer sees RESET_STREAM / "
-            "STOP_SENDING with exactly c; finish() stays pending while acknowledgements are withheld, completes Ok after release, and the "
-            "reader then gets all bytes and end-of-stream.",
+            "STOP_SENDING with exactly c; finish() stays pending while acknowledgements are withheld - also when the pending finish() is "
+            "cancelled and issued again, three times - completes Ok after release, and the reader then gets all bytes and end-of-stream; "
+            "a finish() cancelled while nothing reaches the reader, followed by the reader's stop(c), is reported as Stopped(c) by the "
+            "re-issued finish() and by stopped().",
             SIM_NOTE, "exhaustive enumeration of a bounded scenario grid executed on the real stack under a deterministic simulated environment"),
     "C07": ("simx", "fault_enumeration", "DESIGN.md §6-C07",
             "Fault = k (1..5, thorough 6) peer-opened streams of kind uni/bidi stalled at one of 7 positions (no byte at all; first byte of "
             "the type; type only; first byte of a 2-byte session id; complete preamble then silence; preamble + one flow-control window "
             "nobody reads; accepted by the application and never read) x 3 opening orders x both roles, plus mixed kinds / positions "
-            "(thorough: all position pairs). After the faults the raw peer opens a healthy uni and a healthy bidi stream, sends a datagram "
+            "(thorough: all position pairs), plus many stalled streams - k in {17, 40} (thorough {8, 16, 17, 32, 64, 90}, up to the "
+            "transport's limit of 100) of one kind and of alternating kinds, so that any fixed pool of pending-header slots is exhausted. "
+            "After the faults the raw peer opens a healthy uni and a healthy bidi stream, sends a datagram "
             "and finally a clean close capsule while the application keeps accepting; every victim must be delivered (own bytes) and the "
             "close reported as ApplicationClosed(0, \"\") before a 10 s virtual horizon with keep-alives on.",
             SIM_NOTE + " Quiescence at the virtual horizon is taken as 'never'.",
